@@ -182,7 +182,8 @@ func c01run(env *core.Env, idx int) core.CaseResult {
 			sit = fsx.Situation(ref, st)
 		}
 		hist = append(hist, st)
-		if fsx.Mutates(st) {
+		if fsx.Mutates(st) && st.K != "Chmod" && st.K != "Chtimes" {
+			// (os.Chmod leaves the modification time alone, so an mtime set by Chtimes stays comparable across a Chmod)
 			mt.Touch(st.P)
 			if st.P2 != "" {
 				mt.Touch(st.P2)
